@@ -17,6 +17,7 @@ import (
 	imap "github.com/emersion/go-imap/v2"
 	"github.com/emersion/go-imap/v2/imapclient"
 	"github.com/emersion/go-imap/v2/internal/vsched"
+	"github.com/emersion/go-imap/v2/verif/vimap"
 	"github.com/emersion/go-imap/v2/verif/vk"
 	"github.com/emersion/go-imap/v2/verif/vnet"
 	"github.com/emersion/go-imap/v2/verif/vx"
@@ -97,6 +98,10 @@ func readAllItems(msg *imapclient.FetchMessageData) {
 func corpus() []transcript {
 	var ts []transcript
 	add := func(name string, steps []step, caller func(c *imapclient.Client, r *rec)) {
+		// the transcripts are written with the placeholder tags T1, T2, …: put the client's real ones in
+		for i := range steps {
+			steps[i].send = vimap.Retag(steps[i].send)
+		}
 		ts = append(ts, transcript{name: name, steps: steps, caller: caller, closeAfter: strings.Contains(name, "-with-pending-")})
 	}
 	add("greeting", []step{{0, greetPlain}}, func(c *imapclient.Client, r *rec) {
@@ -364,9 +369,10 @@ func stream(t *transcript) (string, map[int]int) {
 			break
 		}
 		line := all[pos : pos+i]
-		var tag int
-		if _, err := fmt.Sscanf(line, "T%d ", &tag); err == nil {
-			compl[tag] = pos + i + 2
+		if sp := strings.IndexByte(line, ' '); sp > 0 {
+			if tag := vimap.Index(line[:sp]); tag > 0 {
+				compl[tag] = pos + i + 2
+			}
 		}
 		pos += i + 2
 	}
@@ -563,6 +569,7 @@ func enumerate(ts []transcript, thorough bool) []scenarioID {
 
 func main() {
 	run := vk.Start("C10", "model_checking")
+	vimap.Tag(1) // learn the client's tag syntax before any controlled execution
 	ts := corpus()
 	ids := enumerate(ts, run.Thorough())
 	bound := 0
